@@ -6,7 +6,6 @@
 //! heights validity, members and the unread remainder must agree; a panic is a failure.
 #![no_main]
 use libfuzzer_sys::fuzz_target;
-use read_fonts::collections::IntSet;
 use vf_c14::codec::{self, ref_decode, supported_height, RefOut, BF};
 use vf_c14::model::Iv;
 use vf_core::{hex, Rng};
@@ -53,11 +52,7 @@ fn run(data: &[u8]) {
     let body = &data[8..];
     let header = body.first().copied();
     let within = header.map(|h| ((h >> 2) & 31) as u32 <= supported_height(BF[(h & 3) as usize])).unwrap_or(true);
-    let got = match vf_core::guard(|| {
-        IntSet::<u32>::from_sparse_bit_set_bounded(body, bias, max)
-            .ok()
-            .map(|(s, rest)| (Iv(s.iter_ranges().map(|r| (*r.start(), *r.end())).collect()), s.len(), rest.to_vec()))
-    }) {
+    let got = match vf_core::guard(|| codec::lib_decode_bounded(body, bias, max)) {
         Ok(g) => g,
         Err(p) => return judge_panic(&p, &format!("from_sparse_bit_set_bounded bytes={} bias={} max={}", hex(&body[..body.len().min(32)]), bias, max)),
     };
